@@ -34,9 +34,13 @@ type PipeH struct {
 	Role   string `json:"role"`
 	Groups [][]PB `json:"groups"` // batches of a group arrive back to back (within one task-manager tick)
 	TickMs int    `json:"tick_ms"`
+	// alert storm: the last group has Storm altered batches, the notifier has the product's
+	// default queue (10 entries) and the alerts service takes AlertDelayMs per alert
+	Storm        int `json:"storm,omitempty"`
+	AlertDelayMs int `json:"alert_delay_ms,omitempty"`
 }
 
-const rulePipe = "the agent's REAL receive path: gossip messages are published on the incoming bus of a never-started agent wired like `qed agent` (real BatchProcessor with the real auditor / monitor task factory, real SimpleTasksManager started with a 20-100 ms tick, real RestSnapshotStore and SimpleNotifier over httptest services, real client against the real API handlers over an honest log). Batches arrive in groups of 1-3 back to back, i.e. within one tick, each honest or with the EventDigest / HistoryDigest of its first snapshot flipped. The harness computes each batch's ground-truth verdict from the published material. Oracle per group, after every task of the group has run and the notifier's queue has drained: no alert if every batch of the group is honest; at least as many alerts as batches whose verification fails. Non-trivial: a group of >=2 distinct batches of which at least one is altered. distinct = FNV-64 of the case."
+const rulePipe = "the agent's REAL receive path: gossip messages are published on the incoming bus of a never-started agent wired like `qed agent` (real BatchProcessor with the real auditor / monitor task factory, real SimpleTasksManager started with a 20-100 ms tick, real RestSnapshotStore and SimpleNotifier over httptest services, real client against the real API handlers over an honest log). Batches arrive in groups of 1-3 back to back, i.e. within one tick, each honest or with the EventDigest / HistoryDigest of its first snapshot flipped; one case in three ends with an alert storm: 11-30 altered batches at once, a notifier with the product's default queue of 10 and an alerts service that takes 0-250 ms per alert. The harness computes each batch's ground-truth verdict from the published material. Oracle per group, after every task of the group has run and the notifier's queue has drained: no alert if every batch of the group is honest; at least as many alerts as batches whose verification fails. Non-trivial: a group of >=2 distinct batches of which at least one is altered. distinct = FNV-64 of the case."
 
 type doneFactory struct {
 	inner gossip.TaskFactory
@@ -82,6 +86,17 @@ func TestPipeline(t *testing.T) {
 			}
 			h.Groups = append(h.Groups, grp)
 		}
+		if rapid.IntRange(0, 2).Draw(rt, "storm") == 0 {
+			h.Storm = rapid.IntRange(11, 30).Draw(rt, "storm-size")
+			h.AlertDelayMs = rapid.SampledFrom([]int{0, 30, 120, 250}).Draw(rt, "alert-delay")
+			var grp []PB
+			for i := 0; i < h.Storm; i++ {
+				b := PB{First: rapid.IntRange(0, n-1).Draw(rt, "first"), Alter: rapid.SampledFrom([]string{"event", "history"}).Draw(rt, "alter"), A: i}
+				b.Size = rapid.IntRange(1, min(8, n-b.First)).Draw(rt, "size")
+				grp = append(grp, b)
+			}
+			h.Groups = append(h.Groups, grp)
+		}
 		return h
 	}, execPipeline)
 }
@@ -99,6 +114,10 @@ func execPipeline(h PipeH, rec *pbt.Rec) error {
 		return client.NewSimpleHTTPClient(&http.Client{}, []string{srv.URL}, srv.URL)
 	}
 	sv := newServices()
+	if h.Storm > 0 {
+		sv.close()
+		sv = newServicesWith(gossip.DefaultSimpleNotifierConfig().QueueSize, time.Duration(h.AlertDelayMs)*time.Millisecond)
+	}
 	defer sv.close()
 	signed := make([]*protocol.SignedSnapshot, n)
 	for v := 0; v < n; v++ {
@@ -226,7 +245,11 @@ func execPipeline(h PipeH, rec *pbt.Rec) error {
 		if len(payloads) >= 2 && altered > 0 {
 			nt = true
 		}
-		rec.Class(fmt.Sprintf("%s:group-of-%d", h.Role, len(payloads)), 1)
+		if len(payloads) > 10 {
+			rec.Class(fmt.Sprintf("alert-storm:delay-%dms", h.AlertDelayMs), 1)
+		} else {
+			rec.Class(fmt.Sprintf("%s:group-of-%d", h.Role, len(payloads)), 1)
+		}
 		rec.Count("batches", int64(len(payloads)))
 	}
 	rec.Case(h, nt)
